@@ -300,6 +300,14 @@ func isFreshBase(v ssa.Value) bool {
 			return true
 		case *ssa.Phi:
 			return false
+		case *ssa.Call:
+			// result of a constructor called in this function: created here, not yet shared
+			if f := x.Call.StaticCallee(); f != nil && strings.HasPrefix(f.Name(), "New") {
+				if rn, cn := namedOf(x.Type()), namedOf(f.Signature.Results().At(0).Type()); rn != nil && rn == cn {
+					return true
+				}
+			}
+			return false
 		case *ssa.FieldAddr:
 			v = x.X
 		case *ssa.IndexAddr:
